@@ -7,6 +7,7 @@
 #include "verif.h"
 #include "ref_enc.h"
 #include DRV
+#include "exact_buf.h"
 #include <asn_application.h>
 #ifndef tv_wellformed
 #define tv_wellformed tv_valid
@@ -57,9 +58,8 @@ void harness(void) {
     }
 #elif defined(MODE_BUFFER)
     ASSUME(in.bufsize <= TV_MAXENC + 1);
-    uint8_t *buf = (uint8_t *)malloc(in.bufsize);      /* exact-size object: any write beyond it is a bounds violation */
-    ASSUME(buf != 0);
-    for(size_t i = 0; i < TV_MAXENC + 1; i++) if(i < in.bufsize) buf[i] = 0xA5;
+    static const uint8_t fill[TV_MAXENC + 2];
+    uint8_t *buf = exact_copy(fill, in.bufsize);      /* exact-size object: any write beyond it is a bounds violation */
     asn_enc_rval_t er = asn_encode_to_buffer(0, SYNTAX, &TYPE_DEF, &val, buf, in.bufsize);
     uint8_t ref[TV_MAXENC]; size_t rl = ref_len(ref);
     CHECK(er.encoded >= 0 && (size_t)er.encoded == rl, "asn_encode_to_buffer reports the full size for every buffer size");
